@@ -278,3 +278,74 @@ def run(F, R, tier, cfg):
     worklist_rule(F, R)
     skip_rule(F, R)
     drop_rule(F, R)
+    continue_rule(F, R)
+    key_rule(F, R)
+
+
+ADD_SEG = G + "MultiGraph::<'a, F, EntryType>::add_segment"
+SHORT_CIRCUIT = ("::map_while", "::take_while", "::try_for_each", "::try_fold", "::all", "::any", "::find", "::find_map", "::position", "::skip_while", "::scan")
+
+
+def continue_rule(F, R):
+    """CONT: "segments that cannot contribute are ignored without affecting the others": the outcome of add_segment for
+    one segment must not decide whether later segments are added — in a loop both edges of the branch on its result lead
+    back to the next iteration; in a closure the closure is handed to a non-short-circuiting iterator adaptor."""
+    sites = T.call_sites(F, ADD_SEG, crates=["sciparse"])
+    R.floor("CONT", len(sites), 1, "add_segment call sites")
+    for (p, c) in sites:
+        b = F.body(p)
+        R.fn(p)
+        e = F.fns.get(p, {})
+        ok, why = True, "loop continues on both outcomes"
+        if e.get("kind") == "Closure":
+            root = e.get("root")
+            rb = F.body(root) if root else None
+            ok, why = False, "closure not found at an iterator adaptor"
+            if rb is not None:
+                for rc in rb.calls:
+                    if rc.indirect:
+                        continue
+                    direct = [a for a in rc.args if rb.origin(a)[0] == "agg" and rb.origin(a)[1][0] == "closure" and rb.origin(a)[1][1] == p]
+                    if direct:
+                        nm = "::" + rc.decl.split("::")[-1]
+                        ok = nm not in SHORT_CIRCUIT
+                        why = "closure passed to Iterator%s" % nm
+        else:
+            # blocks that start the next iteration: Iterator::next calls on a cycle with the call
+            nxt = [x.bb for x in b.calls if not x.indirect and x.decl.endswith("::next") and c.bb in b.reach(b.succ[x.bb]) and x.bb in b.reach(b.succ[c.bb])]
+            if not nxt:
+                ok, why = False, "add_segment is not called from an iterator-driven loop"
+            else:
+                for g in sorted(b.reach(b.succ[c.bb])):
+                    t = b.term(g)
+                    if t[0] != "switch" or const_int(t[1]) is not None:
+                        continue
+                    if ("fn:" + ADD_SEG) not in tokens(b.origin(t[1])):
+                        continue
+                    for sx in b.succ[g]:
+                        if not any(n in b.reach([sx]) or n == sx for n in nxt):
+                            ok, why = False, "an outcome of add_segment leaves the loop (edge bb%d→bb%d never reaches the next iteration)" % (g, sx)
+        R.ob("CONT", "add_segment in %s: %s" % (short(p), why), ok, True, {"rule": "CONT", "fn": p, "loc": c.span.loc, "how": why, "holds": ok})
+        if not ok:
+            R.violation("CONT", p + "/add_segment", "a segment that cannot be added stops the remaining segments from being added (%s): unusable "
+                        "segments are no longer ignored without affecting paths built from the others" % why, c.span.loc)
+
+
+def key_rule(F, R):
+    """KEY: the adjacency maps are keyed by &InputSegment; the reviewed peer-index invariant ("an edge is stored with the
+    segment it was computed for") needs key equality to be structural over the whole segment — derived PartialEq/Hash."""
+    for tr, item in (("core::cmp::PartialEq", "eq"), ("core::hash::Hash", "hash")):
+        cands = [q for q, e in F.fns.items() if e.get("trait_item") == tr + "::" + item and (e.get("self_ty") or "").startswith(G + "InputSegment")]
+        if len(cands) != 1:
+            R.anchor_missing("impl %s for InputSegment (found %d)" % (tr, len(cands)))
+            continue
+        fn = cands[0]
+        sp = F.fn_span(fn)
+        ok = bool(sp.mac) and ("derive(" + tr.split("::")[-1] + ")") in sp.mac
+        R.ob("KEY", "InputSegment: %s is derived (structural over the referenced PathSegment)" % tr.split("::")[-1], ok, True,
+             {"rule": "KEY", "impl": fn, "origin": sp.mac or "hand-written", "holds": ok})
+        if not ok:
+            R.violation("KEY", fn, "InputSegment has a hand-written %s: two different segments can collide as adjacency-map keys, so an Edge{peer: Some(i)} "
+                        "ends up stored with another segment and `peer_entries.get(i).expect(..)` in PathSolution::path can panic or pick the wrong peer"
+                        % tr.split("::")[-1], sp.loc)
+
